@@ -5,7 +5,7 @@
    (current_tree = repaired = /repo since the fix commits debdde2 F3, d92e32e F4, daaaf4c F22;
    unrepaired = the code before them, about which the REFUTED statements speak). *)
 From Coq Require Import List ZArith Bool.
-From BLB Require Import C18.Model C18.Proofs C18.Proofs2 C18.Serial.
+From BLB Require Import Gen.Consts C18.Model C18.Proofs C18.Proofs2 C18.SerialBase C18.Serial.
 Import ListNotations.
 Open Scope Z_scope.
 
@@ -55,7 +55,7 @@ Theorem sections_do_not_interleave :
     (forall i j a b id, i <> j -> nth_error (snd s) i = Some a -> nth_error (snd s) j = Some b ->
        inside id a = true -> inside id b = true ->
        lock_mode (o_kind (t_op a)) = MR /\ lock_mode (o_kind (t_op b)) = MR) /\
-    (forall k p l, pending_call p l <> 0 -> k <> KGCGone -> holding k p = true) /\
+    (forall k p l, pending_call p l <> 0 -> k <> KGoneOld -> holding k p = true) /\
     (forall g o p l inj g' p' l' b, step V g o p l inj = Some (g', p', l') -> b <> o_tract o ->
        get b (g_busy g') = get b (g_busy g) /\ get b (g_tracts g') = get b (g_tracts g) /\ get b (g_files g') = get b (g_files g) /\
        get b (g_gens g') = get b (g_gens g)).
@@ -84,7 +84,7 @@ Theorem read_sees_one_state :
     reachable V s -> sys_step V s j inj = Some s' ->
     nth_error (snd s) i = Some a -> nth_error (snd s) j = Some b ->
     inside (o_tract (t_op a)) a = true -> lock_mode (o_kind (t_op a)) = MR ->
-    o_kind (t_op b) <> KGCGone ->
+    o_kind (t_op b) <> KGoneOld ->
     get (o_tract (t_op a)) (g_files (fst s')) = get (o_tract (t_op a)) (g_files (fst s)).
 Proof. exact reader_stable. Qed.
 Print Assumptions read_sees_one_state.
@@ -121,18 +121,40 @@ Theorem manager_open_count_balanced :
 Proof. exact mgr_balanced. Qed.
 Print Assumptions manager_open_count_balanced.
 
-(* [PARTIAL] serial equivalence for operation sets on ONE tract, any tree, every schedule, every oracle answer, every wake-up order, all modelled operations except the lock-free GC gone path: when all operations have returned, the operations that got the tract lock, taken in the order in which they released it (the acquisition order for exclusive operations, overlapping readers commute), each run alone on an idle store from the state its predecessor left, yield exactly the per-operation results and the final tract map and disk contents of the interleaved execution; every other operation was refused (busy, bad version, invalid argument) and changed nothing. Missing for FULL: operation sets spanning several tracts (follows from the frame clause of sections_do_not_interleave but is not assembled) and the gone path *)
-Theorem serial_equivalence_partial :
-  forall V id ops g0 sched,
-    init_g g0 -> Forall (ok_op id) ops ->
+(* [FULL] serial equivalence over any finite set of operations on any number of tracts, any tree, every schedule, every oracle answer, every wake-up order; carve-out by name: the lock-free GC gone path. When all operations have returned, the operations that got their tract lock, taken in the order in which they released it, each run alone on an idle store that holds its tract in the state its predecessors left and changing that tract only, yield exactly the per-operation results and, for every tract, the final map entry, file and generation of the interleaved execution; every other operation was refused (busy, bad version, invalid argument) and changed nothing. Release order respects real time (an operation that returned before another was invoked released first), so the chain is a linearization. Every modelled operation touches one local tract (PackTracts reads its sources remotely); RSEncode touches no local tract and is not modelled *)
+Theorem serial_equivalence :
+  forall V ops g0 sched,
+    init_g g0 -> Forall ok_op ops ->
     let s := run_sched V (g0, map new_thread ops) sched in
     quiescent s ->
-    exists ch,
-      Ser V ops (proj g0) ch (proj (fst s)) /\ NoDup (map fst ch) /\
+    exists ch xf,
+      GSer V ops (fun a => at_ a g0) ch xf /\ (forall a, at_ a (fst s) = xf a) /\ NoDup (map fst ch) /\
       (forall i r, In (i, r) ch -> exists t, nth_error (snd s) i = Some t /\ t_pc t = PDone /\ l_res (t_loc t) = r) /\
       (forall i t, nth_error (snd s) i = Some t -> (exists r, In (i, r) ch) \/ refusal (o_kind (t_op t)) (l_res (t_loc t))).
-Proof. exact serial_equivalence_one_tract. Qed.
-Print Assumptions serial_equivalence_partial.
+Proof. exact serial_equivalence_all_tracts. Qed.
+Print Assumptions serial_equivalence.
+
+(* [FULL] the solo runs of the chain are the real step function: a step inside a section depends on and changes, of its own tract, only the map entry, file and generation, whatever the busy map, the counters and all other tracts hold; and adjacent readers of a chain may be swapped, so acquisition order of overlapping readers is a witness as well as release order *)
+Theorem serial_witness_facts :
+  (forall V g g2 o p l inj, body_pc p = true -> at_ (o_tract o) g2 = at_ (o_tract o) g ->
+     lift_a (o_tract o) (step V g2 o p l inj) = lift_a (o_tract o) (step V g o p l inj)) /\
+  (forall V ops x0 ch i1 r1 i2 r2 x o1 o2,
+     nth_error ops i1 = Some o1 -> nth_error ops i2 = Some o2 ->
+     is_reader (o_kind o1) = true -> is_reader (o_kind o2) = true ->
+     GSer V ops x0 ((ch ++ [(i1, r1)]) ++ [(i2, r2)]) x -> GSer V ops x0 ((ch ++ [(i2, r2)]) ++ [(i1, r1)]) x).
+Proof. split; [exact tract_local | exact GSer_swap_readers]. Qed.
+Print Assumptions serial_witness_facts.
+
+(* [REFUTED] the carve-out is real: the GC gone path deletes a tract between the lookup and the Delete of a PullTract that holds the long-writer lock; the copy-in returns ErrNoSuchTract although its source delivered, whereas it returns NoError in both serial orders *)
+Theorem serial_equivalence_gcgone_refuted :
+  let inter := run_sched repaired s_pull_gone (sched_of 0 8 ++ sched_of 1 4 ++ sched_of 0 12) in
+  let serA := run_sched repaired s_pull_gone (sched_of 0 40 ++ sched_of 1 10) in
+  let serB := run_sched repaired s_pull_gone (sched_of 1 10 ++ sched_of 0 40) in
+  all_done inter = true /\ all_done serA = true /\ all_done serB = true /\
+  res_of inter 0 = Some [c18_e_NoSuchTract] /\ res_of serA 0 = Some [c18_e_NoError] /\ res_of serB 0 = Some [c18_e_NoError] /\
+  at_ 0 (fst inter) = (None, None, Some 2).
+Proof. exact gcgone_not_serializable. Qed.
+Print Assumptions serial_equivalence_gcgone_refuted.
 
 (* [FULL] the tree the FULL theorems above are instantiated at: the current tree carries all three fixes *)
 Theorem current_tree_is_repaired :
